@@ -19,3 +19,13 @@ func VerifDynUpdate(i Instance, sock socket.HAProxySocket) (updated bool, cmdCnt
 	updated = u.update()
 	return updated, u.cmdCnt
 }
+
+// VerifSetSockets replaces the master and admin sockets of an instance, so the
+// harness can play the role of an external HAProxy without unix sockets.
+func VerifSetSockets(i Instance, master, admin socket.HAProxySocket) {
+	inst := i.(*instance)
+	inst.conns.master = master
+	inst.conns.admin = admin
+	inst.conns.dynUpdate = admin
+	inst.conns.idleChk = admin
+}
